@@ -13,6 +13,15 @@ func small(mode string) Variant {
 		Amts: []sdkmath.Int{i(1), i(7), i(640)}, Params: true}
 }
 
+// smallCheap adds a third pool whose token is worth a hundredth of the standard coin.
+func smallCheap(mode string) Variant {
+	v := small(mode)
+	v.Name = "small-reserves-cheap-token"
+	v.Std3, v.Tok3 = i(1009), i(100003)
+	v.Amts = []sdkmath.Int{i(1), i(7), i(64)}
+	return v
+}
+
 func bigv(mode string) Variant {
 	// reserves near 2^127 / 2^100, trades of 1, 2^64+1 and 2^96-1
 	return Variant{Name: "big-reserves", Mode: mode,
@@ -34,7 +43,8 @@ func PartsC01() []mc.Part {
 // PartsC02: settlement searches.
 func PartsC02() []mc.Part {
 	return []mc.Part{
-		mc.ExplorePartC("small-reserves", New(small("C02")), 3, 4, false, rule, &mc.ConfOpts{Stores: []string{"coinswap"}, SkipDenoms: map[string]bool{"stake": true}, MaxPaths: 150}),
+		mc.ExplorePartC("small-reserves", New(small("C02")), 4, 5, false, rule, &mc.ConfOpts{Stores: []string{"coinswap"}, SkipDenoms: map[string]bool{"stake": true}, MaxPaths: 150}),
+		mc.ExplorePart("small-reserves-cheap-token", New(smallCheap("C02")), 3, 4, false, rule),
 		mc.ExplorePart("big-reserves", New(bigv("C02")), 2, 3, false, rule),
 	}
 }
